@@ -193,7 +193,8 @@ def run(ctx):
             mirror = None
             if rng.random() < 0.5:
                 mlo = rng.randrange(0, 0xF0)
-                mirror = (mlo, min(0xFF, mlo + (hi - lo)))
+                # the mirror range usually has as many banks as the primary range; sometimes more, sometimes fewer
+                mirror = (mlo, min(0xFF, mlo + (hi - lo) + rng.choice([0, 0, 0, hi - lo + 1, 7, -min(2, hi - lo)])))
             rngs = [range(lo, hi + 1)] + ([range(mirror[0], mirror[1] + 1)] if mirror else [])
             if not overlapping and any(b in used for r in rngs for b in r):
                 continue
@@ -232,7 +233,7 @@ def run(ctx):
             for a, g in zip(addrs, impl_ans):
                 b = a >> 16
                 for _, lo, hi, mask, ram, m in dirs:
-                    for (first, last) in [(lo, hi)] + ([m] if m else []):
+                    for (first, last) in [(lo, hi)] + ([(m[0], min(m[1], m[0] + hi - lo))] if m else []):
                         if first <= b <= last and (a & 0xFFFF) >= 0x10000 - mask:
                             exp = "none" if ram else f"some {(b - first) * mask + (a & 0xFFFF) - (0x10000 - mask)}"
                             if g != exp:
